@@ -136,18 +136,10 @@ def enginesStepM (ps : PState) (_i : Nat) (toks : List String) : PState × StepO
 def enginesExcl (ps : PState) (toks : List String) : List String × Bool :=
   let objs := toks.filterMap (fun t => (ps.obj t).map (·.2))
   match toks.head?, objs with
-  | some "eadd", a :: b :: _ =>
+  | some "eadd", a :: _ :: _ =>
     let reuse := (toks.find? (·.startsWith "reuse=")).bind (fun t => (ps.obj (t.drop 6).toString).map (·.2))
-    let incrD := (toks.find? (·.startsWith "incr=")).bind (fun t => (ps.obj (t.drop 5).toString).map (·.2))
-    -- F32: the default engine's incr mode on one-element operands clobbers the first operand
-    let f32 := a.eng == .std && incrD.isSome && a.win.len == 1 && b.win.len == 1
-    ((if Excl_reuseOrderFlip a reuse then ["F35"] else []) ++ (if f32 then ["F32"] else []), true)
-  | some "fma", a :: _ =>
-    -- F32: the default engine's FMA is Mul with WithIncr: one-element operands clobber the first operand
-    let xOne := match toks[2]? with
-      | some x => x.startsWith "#" || (match ps.obj x with | some (_, d) => d.win.len == 1 | none => false)
-      | none => false
-    ((if a.eng == .std && a.win.len == 1 && xOne then ["F32"] else []), true)
+    ((if Excl_reuseOrderFlip a reuse then ["F35"] else []), true)
+  | some "fma", _ :: _ => ([], true)
   | _, _ => ([], false)
 
 /-- S: the specialised engines must deliver what the default engine delivers: `a + b`, `y += a*x`. -/
